@@ -36,6 +36,15 @@ CHECKS['C14'] = dict(cat='model_checking', ref='5/C14',
     note='Payloads are rendered from (kept,total) with two metric names and a distinct label set per sample.',
     tech='TLA+ functional spec; TLC exhaustive check; TLC-generated behaviours replayed on the real sidecar; TLC trace validation')
 
+CHECKS['C12'] = dict(cat='model_checking', ref='5/C12',
+    text='spec/ProxyStream.tla models one proxied scrape as a streaming state machine; TLC explores it over every scenario of a finite space (body length, every chunking of the upstream reads, identity/gzip, failure kind x offset, short writes, stop, assigned) and checks C12 (exact bytes, status 200, content type) and the prefix invariant on the model; every terminal state is a replay case for the real Proxy.ServeHTTP with a scripted upstream body (unit sizes 1 B .. 300 kB by seed, comment/blank/rejected lines, cuts inside lines) and a real HTTP server/client or a scripted short-writing ResponseWriter; the real outcome must equal the predicted one and TLC (ProxyEval) evaluates C12 on the observations.',
+    note='Prometheus-side write errors are outside the statement; gzip codec correctness is trusted (bodies are really compressed and chunked on the compressed stream).',
+    tech='TLA+ streaming state machine; TLC exhaustive scenario enumeration; replay on real proxy; TLC evaluation of formulas on observations')
+CHECKS['C13'] = dict(cat='model_checking', ref='5/C13',
+    text='Same specification and replay as C12, for failing scenarios: connect error, non-200, timeout before headers, body breaking off (unexpected EOF, connection reset, timeout, other error) at every unit offset before and after the response headers were sent, administrative stop; formulas: failed real scrape => Prometheus sees non-200 or an aborted response (observed by a real HTTP client through the proxy), health down with error, successful => up without error, scrape counter +1 exactly once per attempt for an assigned target.',
+    note='A break exactly at the end of the body is not part-way and is not generated; what an aborted response delivered before the cut is not compared (server buffering).',
+    tech='TLA+ streaming state machine; TLC exhaustive scenario enumeration; replay on real proxy; TLC evaluation of formulas on observations')
+
 ALL = ['C%02d' % i for i in range(1, 21)]
 
 
